@@ -199,6 +199,7 @@ fn run_scenario(run: &Run, scenario: usize, h: &mut Hist, sc: &Scratch, n_trunk:
 		"random_mix",
 		"multi_block_rewind_newer_block_spends_older_chunk",
 		"head_reset_without_a_following_block",
+		"head_reset_across_the_chunk_boundary",
 	];
 	let name = names[scenario % names.len()];
 	let mut cx = Ctx {
@@ -478,6 +479,89 @@ fn run_scenario(run: &Run, scenario: usize, h: &mut Hist, sc: &Scratch, n_trunk:
 					let b = grow_block(h, &line2[1], 10);
 					ok &= deliver_ok(&mut cx, &mut node, h, &b, "block_after_head_reset");
 				}
+			}
+		}
+		"head_reset_across_the_chunk_boundary" => {
+			// A heavier fork of coinbase-only blocks leaves the trunk below the chunk boundary and grows across it (one
+			// output per block: rewinding these blocks restores nothing anywhere). Then the head is reset, with no block
+			// following, to fork blocks whose output set ends in the chunk BEFORE the one the head's ends in.
+			let mut fp = None;
+			for gb in trunk.iter().rev() {
+				if (h.state(&gb.hash).outs.len() as u64) < 1024 - 8 {
+					fp = Some(gb.hash);
+					break;
+				}
+			}
+			let fp = match fp {
+				Some(x) => x,
+				None => {
+					run.inconclusive("no fork point below 1024 outputs");
+					return;
+				}
+			};
+			let head_td = h.ledger.get(&tip).total_difficulty;
+			let fp_td = h.ledger.get(&fp).total_difficulty;
+			let n_fp = h.state(&fp).outs.len() as u64;
+			let mut cur = fp;
+			let mut line: Vec<(Hash, u64)> = vec![];
+			let n_fork = (1024 - n_fp) + 12;
+			for i in 0..n_fork {
+				let b = spend_block(h, &cur, &[], if i == 0 { head_td - fp_td + 50 } else { 10 });
+				ok &= deliver_ok(&mut cx, &mut node, h, &b, "coinbase_only_fork_block");
+				cur = b.hash();
+				line.push((cur, h.state(&cur).outs.len() as u64));
+				if !ok {
+					break;
+				}
+			}
+			if ok && line.last().map(|x| x.1 > 1024).unwrap_or(false) {
+				ok &= full_check(&mut cx, &mut node, h, "coinbase_only_fork_across_the_boundary");
+				// targets: the last block below the boundary, exactly on it, and well below
+				let targets: Vec<(Hash, u64)> = [1023u64, 1024, 1019]
+					.iter()
+					.filter_map(|n| line.iter().find(|x| x.1 == *n).cloned())
+					.collect();
+				let mut first = true;
+				for (t, n_t) in targets {
+					if !ok {
+						break;
+					}
+					let chain = node.chain.as_ref().unwrap();
+					let hdr = match chain.get_block_header(&t) {
+						Ok(x) => x,
+						Err(e) => {
+							run.inconclusive(&format!("head reset: header of the target not readable: {:?}", e));
+							break;
+						}
+					};
+					if let Err(e) = chain.reset_chain_head(Tip::from_header(&hdr), true) {
+						run.inconclusive(&format!("head reset to an ancestor of the head refused: {:?}", e));
+						break;
+					}
+					run.count("head_resets_across_the_chunk_boundary", 1);
+					ok &= check_state(&mut cx, &mut node, h, &format!("head_reset_across_the_boundary_to_{}_outputs", n_t));
+					if ok && first {
+						ok &= reopen(&mut cx, &mut node, h, "after_head_reset_across_the_boundary");
+					}
+					first = false;
+					// back up across the boundary for the next target
+					if ok {
+						let mut c2 = t;
+						for _ in 0..(1024 - n_t.min(1024) + 6) {
+							let b = spend_block(h, &c2, &[], 10);
+							ok &= deliver_ok(&mut cx, &mut node, h, &b, "coinbase_only_block_after_head_reset");
+							c2 = b.hash();
+							if !ok {
+								break;
+							}
+						}
+					}
+				}
+				if ok {
+					ok &= full_check(&mut cx, &mut node, h, "after_head_resets_across_the_boundary");
+				}
+			} else if ok {
+				run.inconclusive("coinbase-only fork did not cross the chunk boundary");
 			}
 		}
 		"multi_block_rewind_newer_block_spends_older_chunk" => {
@@ -785,7 +869,7 @@ fn main() {
 	let san = run.args.iter().any(|a| a == "--san");
 	// 1 + 4 + 10*(n-4) outputs: 107 blocks -> 1035 outputs (2 chunks); 335 -> 3315 (4 chunks)
 	let n_blocks: u64 = if san { 30 } else { run.tier.pick(107, 335) };
-	let n_scen: usize = run.tier.pick(6, 12);
+	let n_scen: usize = run.tier.pick(7, 14);
 	if let Some((shard, n)) = run.worker_shard() {
 		init_thread(true);
 		let dir = run.arg_value("--dir").expect("--dir");
@@ -843,6 +927,7 @@ fn main() {
 			2,
 		);
 		run.require("head_resets_checked", run.counter("head_resets_checked"), 5);
+		run.require("head resets (no block following) whose target ends in the chunk before the one the head ends in", run.counter("head_resets_across_the_chunk_boundary"), 2);
 		run.require("head_resets_onto_an_even_output_count", run.counter("head_resets_onto_an_even_output_count"), 2);
 		run.require("boundary_index_spends", run.counter("boundary_index_spends"), 2);
 		run.require("old_chunk_spends", run.counter("old_chunk_spends"), 8);
